@@ -11,30 +11,62 @@ MANIFEST = dict(text="Theorems split_unsplit / url_components / wsgi_asgi_same /
              "query_update_is_set / query_remove_is_filter / query_roundtrip / repr_noninterference about the Gallina model of "
              "URL._build_url (scope and environ), urllib.parse.urlsplit/urlunsplit and the netloc accessors, URL.replace (netloc "
              "surgery), the query-parameter helpers and URL.__repr__ hold for every URL of the grammar "
-             "scheme://[user[:pw]@]host[:port]path[?q][#f]; the model is compared with the live baize.datastructures.URL and both "
-             "Request.url properties on all scheme x server x port x Host x path combinations, on every small text over the URL "
-             "delimiters, on grammar URLs with mutations, and on grammar URLs x subsets of components to replace.",
+             "scheme://[user[:pw]@]host[:port]path[?q][#f]; theorems redecode_roundtrip / redecode_only_renderings / "
+             "rendering_keeps_ascii / wsgi_asgi_same_unicode / url_components_unicode / invalid_utf8_is_400 / invalid_query_is_400 "
+             "(C18/Unicode.v) carry the request half to root paths, paths and query strings over all Unicode scalar values: the "
+             "environ a PEP 3333 gateway builds (UTF-8 bytes shown as Latin-1 text) and the scope an ASGI server builds (text, query "
+             "string as UTF-8 bytes) for one request give the same URL value with exactly the given components, the re-decoding "
+             "`.encode('latin1').decode('utf8')` inverts the gateway's rendering and accepts nothing else, and an environ path or a "
+             "query string (either interface) that is not UTF-8 is answered with 400. The model is compared with the live "
+             "baize.datastructures.URL and both Request.url properties on all scheme x server x port x Host x path combinations, on "
+             "Unicode texts through both gateways (every character of U+0080..U+00FF, combining, non-BMP, NFKC-sensitive, percent "
+             "signs, random scalar values), on raw environ / scope values incl. every kind of invalid UTF-8, on every small text "
+             "over the URL delimiters, on grammar URLs with mutations, and on grammar URLs x subsets of components to replace.",
         note="Modelled, not verified: CPython 3.12 urlsplit/urlunsplit/SplitResult accessors, ipaddress text parsing, "
-             "parse_qsl/quote_plus, repr(str) (transcribed; validated by the correspondence). Not modelled: NFKC netloc check, "
-             "non-ASCII lower-casing/printability, the Latin-1/UTF-8 re-decoding of the WSGI path (cases are valid UTF-8). "
-             "Known finding: a decoded path containing '?' or '#' is re-split.",
-        technique="Coq proof (split/unsplit round trip on the grammar, netloc surgery lemmas) + executable model/implementation correspondence",
+             "parse_qsl/quote_plus, repr(str) (transcribed; validated by the correspondence); CPython's UTF-8 codec (encoder "
+             "Lib/Utf8.v, strict decoder C04/Static.v, proved inverse to each other via C01's utf8_codec; that they are CPython's "
+             "is checked by the correspondence on every kind of invalid sequence); that urlsplit leaves code points >= 128 of a "
+             "path or query alone (NFKC applies to the netloc only). Not modelled: NFKC netloc check, non-ASCII "
+             "lower-casing, which code points >= 256 repr() escapes (request URLs: the harness checks repr == URL(repr(str)) itself). "
+             "Surrogates are excluded from 'text' (str.encode refuses them); a scope path holding one is passed through "
+             "(correspondence only). Known finding: a decoded path containing '?' or '#' is re-split.",
+        technique="Coq proof (split/unsplit round trip on the grammar, netloc surgery lemmas; UTF-8 codec round trip for the "
+                  "gateway renderings) + executable model/implementation correspondence",
         ref="5/C18")
 
 RULE = ("cases: (a) every scheme in {http,https,ws,wss} x server in {none,name,IPv4,IPv6 '::1',bracketed IPv6} x port in "
         "{default,other,None} x Host in {absent,name,name:port,name:default-port,[v6]:port,upper-case} x 10 root/path/query samples "
-        "(non-ASCII, '?'/'#' in the path, empty path), built from an environ and from a scope (exhaustive); (b) urlsplit/geturl/"
+        "(non-ASCII, '?'/'#' in the path, empty path), built from an environ and from a scope (exhaustive); (a') one abstract "
+        "Unicode request rendered for both gateways (environ: UTF-8 bytes as Latin-1 text; scope: text + UTF-8 query bytes): every "
+        "character of U+0080..U+00FF in root path, path and query; 49 samples (combining sequences, non-BMP incl. ZWJ / flag "
+        "sequences and U+10FFFF, the borders of the 2/3/4-byte forms, characters whose bytes show as C1 controls / NEL / NBSP in "
+        "the environ, U+2028, NFKC-sensitive fullwidth '?' '#' '/', percent signs) alone, in all three places under five "
+        "scheme/server/Host contexts, and in pairs; random texts over all scalar values; (a'') raw environ texts and raw scope "
+        "values: 35 kinds of invalid UTF-8 (lone continuation bytes, truncated sequences, overlong forms, encoded surrogates, "
+        "beyond U+10FFFF, bad continuation, Latin-1 text that never was UTF-8, characters above U+00FF) alone / after / before "
+        "valid text in SCRIPT_NAME, PATH_INFO, QUERY_STRING, against an unknown scheme or a bad Host header (order of the "
+        "failures), sequences cut by the SCRIPT_NAME/PATH_INFO border, every byte string of length <= 3 over 10 bytes where the "
+        "decoder's branches change, 4-byte forms, every single byte >= 0x80, renderings of random text damaged at one place; "
+        "scope query strings likewise, scope paths with a lone surrogate; (b) urlsplit/geturl/"
         "accessors/repr on every text of length <= n (quick 4, thorough 5) over 'a1:/?#@[]', bare and after 'http://', on literals, "
         "on random grammar URLs and on mutations of them; (c) grammar URLs x subsets of the 8 components (quick: singles, pairs and "
         "sampled subsets; thorough: all 256) x values incl. '@' ':' in passwords and None; URLs without host; values outside the "
         "grammar (correspondence only); (d) include/replace/remove_query_params on multi-value queries; (e) random passwords for "
-        "repr. non-trivial = Host header present or a port/IPv6 server or a '?#' path (a); a netloc is parsed (b); a netloc "
-        "component is replaced (c); the query changes (d); a non-empty password (e)")
+        "repr. non-trivial = Host header present or a port/IPv6 server or a '?#' path or non-ASCII text (a); a byte >= 0x80 in a "
+        "raw value (a''); a netloc is parsed (b); a netloc component is replaced (c); the query changes (d); a non-empty password (e)")
 TRUSTED = ["transcription of urllib.parse.urlsplit/urlunsplit/_NetlocResultMixinStr, ipaddress.ip_address, parse_qsl, quote_plus and "
-           "repr(str) of CPython 3.12 in C18/Model.v, validated by this correspondence (split / mutation / exhaustive-text cases)"]
-ASSUMPTIONS = ["the path, root path and query string of a request are valid UTF-8 (the model receives the decoded text)",
-               "non-ASCII text in a netloc is NFKC-stable and lower-case (cases use only e-acute, u-umlaut and a CJK ideograph); "
-               "code points >= 256 are printable",
+           "repr(str) of CPython 3.12 in C18/Model.v, validated by this correspondence (split / mutation / exhaustive-text cases)",
+           "the gateway renderings of C18/Unicode.v (environ_of: PEP 3333 bytes-as-Latin-1; scope_of: ASGI text + query bytes) are "
+           "the harness's make_environ / make_scope; CPython's UTF-8 and Latin-1 codecs as Lib/Utf8.v / C04/Static.v, validated by "
+           "the raw environ / scope cases",
+           "harness canonicalisation: for a request URL without password that holds a code point >= U+0100 CPython does not print, "
+           "the harness checks repr(url) == 'URL(%r)' % str(url) itself and hands on the model's rendering (model_repr)"]
+ASSUMPTIONS = ["root path, path and query string of a request are sequences of Unicode scalar values (no surrogates: str.encode "
+               "refuses them, no gateway can carry them as bytes); invalid UTF-8 in an environ or in a scope's query string is modelled "
+               "(400); a scope path with a lone surrogate is passed through (correspondence only)",
+               "non-ASCII text in a netloc is NFKC-stable and lower-case (cases use only e-acute, u-umlaut and a CJK ideograph; the "
+               "Unicode request cases keep root path + path empty or starting with a single '/'); "
+               "code points >= 256 are printable (split/replace cases; request cases: see the canonicalisation)",
                "replace(): the hostname argument is in netloc syntax (an IPv6 literal is bracketed), a user name holds none of "
                "':/?#[]', a password none of '/?#[]', a host name none of ':/?#[]@', a path is empty or starts with '/' and holds "
                "no '?#', a query holds no '#', a scheme is lower-case; no text holds TAB/CR/LF",
